@@ -258,6 +258,13 @@ class Evaluator(object):
     def site(self, kind, node, **d):
         if kind == "call" and d.get("callee") == "np.nonzero":
             d["callee"] = "np.where"  # one name for the one-argument index selection
+        if kind == "call" and d.get("method") in tm.METHOD_ALIASES and d.get("base") is not None and d.get("fn") is None:
+            # x.max(...) is recorded as the call np.max(x, ...) it abbreviates (the term is normalised the same way)
+            d["callee"] = tm.METHOD_ALIASES[d["method"]]
+            d["args"] = (d["base"],) + tuple(d.get("args") or ())
+            d["fn"] = tm.ext(d["callee"])
+            d["base"] = None
+            d["method"] = None
         s = Site(kind, self.func, node, self.pc, **d)
         self.summary.sites.append(s)
         return s
